@@ -24,7 +24,8 @@
 (* (the first; only legal when the expansion is empty).  Helper rules are  *)
 (* appended after the rules of the grammar, in the order of creation.      *)
 (*                                                                         *)
-(* st: [i, cache: set of <<key, name>>, new: Seq([name, alts, keepall])]   *)
+(* Helper rules are numbered in the order EBNF_to_BNF meets their x* / x+   *)
+(* nodes: deepest first (see below), one counter for the whole grammar.     *)
 (***************************************************************************)
 EXTENDS EBNF, TLC
 B == INSTANCE Matcher          \* TreeBuilder.Callback, CFG.Derivs, Shape (no constants)
@@ -45,39 +46,81 @@ Copies(x, k) == [q \in 1..k |-> x]
 
 Lookup(cache, key) == {c[2] : c \in {d \in cache : d[1] = key}}
 
-RECURSIVE CompileE(_, _, _, _, _), CompileSeq(_, _, _, _, _, _)
-\* -> [alts, st]
-CompileE(G, e, prefix, ka, st) ==
-  CASE e.k = "tok"  -> [alts |-> << <<Sym(e.name, TRUE, ~e.keep, FALSE)>> >>, st |-> st]
-    [] e.k = "rule" -> [alts |-> << <<Sym(e.name, FALSE, FALSE, RuleNamed(G, e.name).inline)>> >>, st |-> st]
-    [] e.k = "seq"  -> LET r == CompileSeq(G, e.items, 1, prefix, ka, st) IN [alts |-> Dedup(Cross(r.lists, 1)), st |-> r.st]
-    [] e.k = "alt"  -> LET r == CompileSeq(G, e.alts, 1, prefix, ka, st) IN [alts |-> Dedup(Cat(r.lists, 1)), st |-> r.st]
-    [] e.k = "opt"  -> LET r == CompileE(G, e.x, prefix, ka, st) IN [alts |-> Dedup(Append(r.alts, <<>>)), st |-> r.st]
+\* ---- where the helper rules get their numbers ---------------------------------------------------------------------------
+\* EBNF_to_BNF is a Transformer_InPlace: Tree.iter_subtrees() lists the nodes of the rule's tree breadth-first and the list is
+\* walked backwards, every node transforming its children left to right.  So the x* / x+ nodes of one rule are compiled
+\* DEEPEST FIRST, and left to right among nodes of equal depth - depth counted in lark's own tree of the rule:
+\*    expansions > [alias >] expansion > expr > ( group: expansions > expansion | maybe > expansions > expansion ) > ...
+\* A node is named by its path in the expression (seq item i / alternative i / operand 0).
+\* ItemNodes(e, d, path): e is an item of an `expansion` node at depth d.  -> set of <<depth, path>> of its unbounded repetitions
+RECURSIVE ItemNodes(_, _, _), AtomNodes(_, _, _), ItemsOf(_, _, _)
+ItemsOf(x, d, path) ==              \* x written as the content of ONE expansion at depth d
+  IF x.k = "seq" THEN UNION {ItemNodes(x.items[i], d, Append(path, i)) : i \in DOMAIN x.items} ELSE ItemNodes(x, d, path)
+AtomNodes(x, dx, path) ==           \* x is the operand of an expr node at depth dx
+  CASE x.k \in {"tok", "rule"} -> {}
+    [] x.k = "alt" -> UNION {ItemsOf(x.alts[i], dx + 2, Append(path, i)) : i \in DOMAIN x.alts}              \* ( a | b ): expansions, expansion
+    [] x.k = "maybe" -> ItemsOf(x.x, dx + 3, Append(path, 0))                                                \* [ .. ]: maybe, expansions, expansion
+    [] OTHER -> ItemsOf(x, dx + 2, path)                                                                      \* ( .. ) added by the writer: expansions, expansion
+ItemNodes(e, d, path) ==
+  CASE e.k \in {"tok", "rule"} -> {}
+    [] e.k = "opt" -> AtomNodes(e.x, d + 1, Append(path, 0))
+    [] e.k = "rep" -> (IF e.m < 0 THEN {<<d + 1, path>>} ELSE {}) \cup AtomNodes(e.x, d + 1, Append(path, 0))
+    [] e.k = "maybe" -> ItemsOf(e.x, d + 3, Append(path, 0))
+    [] e.k = "alt" -> UNION {ItemsOf(e.alts[i], d + 2, Append(path, i)) : i \in DOMAIN e.alts}
+    [] e.k = "seq" -> ItemsOf(e, d, path)                    \* (the writer puts a sequence inside a sequence without brackets)
+\* lexicographic order of paths
+RECURSIVE PathLess(_, _)
+PathLess(a, b) == IF a = <<>> THEN b # <<>> ELSE IF b = <<>> THEN FALSE ELSE IF a[1] # b[1] THEN a[1] < b[1] ELSE PathLess(Tail(a), Tail(b))
+Before(m, n) == m[1] > n[1] \/ (m[1] = n[1] /\ PathLess(m[2], n[2]))
+RECURSIVE SortNodes(_)
+SortNodes(S) == IF S = {} THEN <<>> ELSE LET f == CHOOSE x \in S : \A y \in S \ {x} : Before(x, y) IN <<f>> \o SortNodes(S \ {f})
+RECURSIVE NodeAt(_, _)
+NodeAt(e, path) ==
+  IF path = <<>> THEN e
+  ELSE CASE e.k = "seq" -> NodeAt(e.items[path[1]], Tail(path))
+         [] e.k = "alt" -> NodeAt(e.alts[path[1]], Tail(path))
+         [] OTHER -> NodeAt(e.x, Tail(path))
+
+\* names: set of <<path, name>> of the unbounded repetitions already compiled in this rule alternative set
+RECURSIVE CompileE(_, _, _, _, _), CompileList(_, _, _, _, _, _)
+\* -> the list of alternatives of e (pure: helper names are looked up by path)
+CompileE(G, e, ka, names, path) ==
+  CASE e.k = "tok"  -> << <<Sym(e.name, TRUE, ~e.keep, FALSE)>> >>
+    [] e.k = "rule" -> << <<Sym(e.name, FALSE, FALSE, RuleNamed(G, e.name).inline)>> >>
+    [] e.k = "seq"  -> Dedup(Cross(CompileList(G, e.items, 1, ka, names, path), 1))
+    [] e.k = "alt"  -> Dedup(Cat(CompileList(G, e.alts, 1, ka, names, path), 1))
+    [] e.k = "opt"  -> Dedup(Append(CompileE(G, e.x, ka, names, Append(path, 0)), <<>>))
     [] e.k = "maybe" ->
-         LET r == CompileE(G, e.x, prefix, ka, st) IN
-         IF G.ph THEN [alts |-> Dedup(Append(r.alts, Copies(EmptyMark, KeptSize(G, e.x, ka \/ G.ka)))), st |-> r.st]
-         ELSE [alts |-> Dedup(Append(r.alts, <<>>)), st |-> r.st]
+         IF G.ph THEN Dedup(Append(CompileE(G, e.x, ka, names, Append(path, 0)), Copies(EmptyMark, KeptSize(G, e.x, ka))))
+         ELSE Dedup(Append(CompileE(G, e.x, ka, names, Append(path, 0)), <<>>))
     [] e.k = "rep" /\ e.m < 0 ->
-         LET r == CompileE(G, e.x, prefix, ka, st)
-             key == <<r.alts, ka>>
-             hit == Lookup(r.st.cache, key)
-             kind == IF e.n = 0 THEN "star" ELSE "plus"
-             name == IF hit # {} THEN CHOOSE n \in hit : TRUE ELSE "__" \o prefix \o "_" \o kind \o "_" \o ToString(r.st.i)
-             h == Sym(name, FALSE, FALSE, TRUE)
-             st2 == IF hit # {} THEN r.st
-                    ELSE [i |-> r.st.i + 1, cache |-> r.st.cache \cup {<<key, name>>},
-                          new |-> Append(r.st.new, [name |-> name, keepall |-> ka,
-                                                    alts |-> Dedup(r.alts \o [q \in DOMAIN r.alts |-> <<h>> \o r.alts[q]])])]
-         IN [alts |-> IF e.n = 0 THEN << <<h>>, <<>> >> ELSE << <<h>> >>, st |-> st2]
+         LET h == Sym(CHOOSE n \in Lookup(names, path) : TRUE, FALSE, FALSE, TRUE) IN IF e.n = 0 THEN << <<h>>, <<>> >> ELSE << <<h>> >>
     [] e.k = "rep" /\ e.m >= 0 ->
-         LET r == CompileE(G, e.x, prefix, ka, st) IN
-         [alts |-> Dedup(Cat([k \in 1..(e.m - e.n + 1) |-> Cross(Copies(r.alts, e.n + k - 1), 1)], 1)), st |-> r.st]
-\* the items of a sequence / the alternatives of an alternation, left to right, threading the state
-CompileSeq(G, es, i, prefix, ka, st) ==
-  IF i > Len(es) THEN [lists |-> <<>>, st |-> st]
-  ELSE LET r == CompileE(G, es[i], prefix, ka, st)
-           rest == CompileSeq(G, es, i + 1, prefix, ka, r.st)
-       IN [lists |-> <<r.alts>> \o rest.lists, st |-> rest.st]
+         LET a == CompileE(G, e.x, ka, names, Append(path, 0)) IN
+         Dedup(Cat([k \in 1..(e.m - e.n + 1) |-> Cross(Copies(a, e.n + k - 1), 1)], 1))
+CompileList(G, es, i, ka, names, path) ==
+  IF i > Len(es) THEN <<>> ELSE <<CompileE(G, es[i], ka, names, Append(path, i))>> \o CompileList(G, es, i + 1, ka, names, path)
+
+\* name the x* / x+ nodes of one rule (all its alternatives form ONE tree) in lark's order, creating or re-using helper rules
+\* st: [i, cache: set of <<key, name>>, new: Seq([name, alts, keepall])]
+RECURSIVE NameNodes(_, _, _, _, _, _, _)
+NameNodes(G, r, ka, nodes, k, names, st) ==
+  IF k > Len(nodes) THEN [names |-> names, st |-> st]
+  ELSE LET path == nodes[k][2]
+           e == NodeAt(r.alts[path[1]].body, Tail(path))
+           inner == CompileE(G, e.x, ka, names, Append(path, 0))
+           \* rules_cache is keyed by the operand's TREE (and keep_all_tokens): equal trees = equal sub-expressions as written
+           \* ( (A | A)+ does not share the helper of A+ although both compile to the same alternatives )
+           key == <<e.x, ka>>
+           hit == Lookup(st.cache, key)
+           name == IF hit # {} THEN CHOOSE n \in hit : TRUE
+                   ELSE "__" \o r.name \o "_" \o (IF e.n = 0 THEN "star" ELSE "plus") \o "_" \o ToString(st.i)
+           h == Sym(name, FALSE, FALSE, TRUE)
+           st2 == IF hit # {} THEN st
+                  ELSE [i |-> st.i + 1, cache |-> st.cache \cup {<<key, name>>},
+                        new |-> Append(st.new, [name |-> name, keepall |-> ka, alts |-> Dedup(inner \o [q \in DOMAIN inner |-> <<h>> \o inner[q]])])]
+       IN NameNodes(G, r, ka, nodes, k + 1, names \cup {<<path, name>>}, st2)
+RuleNodes(r) == UNION {ItemsOf(r.alts[a].body, IF r.alts[a].alias # "" THEN 2 ELSE 1, <<a>>) : a \in DOMAIN r.alts}
 
 \* one compiled rule, in the shape TreeBuilder.tla / Matcher.tla / CFG.tla read
 MkRule(origin, alias, e1, helper, keepall, expansion, ph) ==
@@ -89,19 +132,17 @@ MkRule(origin, alias, e1, helper, keepall, expansion, ph) ==
       syms |-> [q \in DOMAIN syms |-> [name |-> syms[q].name, isterm |-> syms[q].isterm, filter_out |-> syms[q].filter_out, inl |-> syms[q].inl]]]
 
 \* the rules of the grammar in definition order (threading the helper state), then the helpers in order of creation
-RECURSIVE CompileRules(_, _, _), CompileAlts(_, _, _, _, _)
-CompileAlts(G, r, a, ka, st) ==
-  IF a > Len(r.alts) THEN [rules |-> <<>>, st |-> st]
-  ELSE LET c == CompileE(G, r.alts[a].body, r.name, ka, st)
-           mine == [q \in DOMAIN c.alts |-> MkRule(r.name, r.alts[a].alias, r.expand1, r.inline, ka, c.alts[q], G.ph)]
-           rest == CompileAlts(G, r, a + 1, ka, c.st)
-       IN [rules |-> mine \o rest.rules, st |-> rest.st]
+RECURSIVE CompileRules(_, _, _)
 CompileRules(G, k, st) ==
   IF k > Len(G.rules) THEN [rules |-> <<>>, st |-> st]
   ELSE LET r == G.rules[k]
-           c == CompileAlts(G, r, 1, r.keepall \/ G.ka, st)
-           rest == CompileRules(G, k + 1, c.st)
-       IN [rules |-> c.rules \o rest.rules, st |-> rest.st]
+           ka == r.keepall \/ G.ka
+           nn == NameNodes(G, r, ka, SortNodes(RuleNodes(r)), 1, {}, st)
+           mine == Cat([a \in DOMAIN r.alts |->
+                          LET c == CompileE(G, r.alts[a].body, ka, nn.names, <<a>>)
+                          IN [q \in DOMAIN c |-> MkRule(r.name, r.alts[a].alias, r.expand1, r.inline, ka, c[q], G.ph)]], 1)
+           rest == CompileRules(G, k + 1, nn.st)
+       IN [rules |-> mine \o rest.rules, st |-> rest.st]
 SameRule(a, b) == a.origin = b.origin /\ a.rhs = b.rhs
 RECURSIVE DedupRules(_, _)
 DedupRules(rs, i) ==
